@@ -1,5 +1,5 @@
 \* Exhaustive configuration of the design model of smooth::minimize: max_iter = 4, both strategies, every
-\* combination of the abstract environment outcomes, cost levels 0..2, assumptions A1-A3 in force.
+\* combination of the abstract environment outcomes, cost levels 0..2, assumptions A2, A3 in force, rho arbitrary (TieRho = FALSE).
 \* Minimize_shared.cfg: two consecutive runs on a fresh or shared strategy object (max_iter = 2; thorough tier 3).
 \* Minimize_live.cfg: the temporal property Termination on a small instance.  The driver also writes mutant
 \* configurations (Variant /= "coded", or an assumption dropped) that TLC must reject.
@@ -9,9 +9,9 @@ CONSTANTS
   Levels = 1
   Kinds = {"ceres", "disney"}
   Variant = "coded"
-  AssumeA1 = TRUE
   AssumeA2 = TRUE
   AssumeA3 = TRUE
+  TieRho = FALSE
 SPECIFICATION Spec
 INVARIANT TypeOK
 INVARIANT Bound
@@ -19,7 +19,8 @@ INVARIANT StatusContract
 INVARIANT Callbacks
 INVARIANT Monotone
 INVARIANT StratInv
-INVARIANT Persist
+INVARIANT Carried
+INVARIANT FreshAtStart
 INVARIANT FreshInit
 INVARIANT NotStuck
 PROPERTY Decreases
